@@ -38,3 +38,11 @@ func VUnmarshalWrite(b []byte) (uint64, [][]byte, error)         { return unmars
 
 // VQueueOf exposes the queue of an open node processor.
 func VQueueOf(n *NodeProcessor) *VQueue { return &VQueue{n.queue} }
+
+// VProcessor returns the node processor of (node, shard) if the service has one.
+func (s *Service) VProcessor(nodeID, shardID uint64) *NodeProcessor {
+	s.mu.RLock()
+	defer s.mu.RUnlock()
+	p, _ := s.processor(nodeID, shardID)
+	return p
+}
